@@ -232,6 +232,10 @@ func c10(args []string) error {
 		return links
 	}
 
+	deadline := 10 * time.Second // per input; VERIF_C10_DEADLINE (seconds) for the confirmation of a recorded time-out
+	if v, err := strconv.Atoi(os.Getenv("VERIF_C10_DEADLINE")); err == nil && v > 0 {
+		deadline = time.Duration(v) * time.Second
+	}
 	idx := 0
 	for di, doc := range docs {
 		for si, s := range samples {
@@ -259,7 +263,7 @@ func c10(args []string) error {
 			case res := <-done:
 				res["ev"], res["id"], res["n"], res["type"] = "x.end", id, idx, s.name
 				tr.Emit(res)
-			case <-time.After(5 * time.Second):
+			case <-time.After(deadline):
 				tr.Emit(map[string]any{"ev": "x.end", "id": id, "n": idx, "type": s.name, "outcome": "timeout"})
 				tr.Close()
 				os.Exit(4) // the stuck goroutine cannot be stopped: the caller restarts after this input
